@@ -15,10 +15,10 @@ RULE = ('unfiltered random and shaped bases (consistent, weakly consistent, inco
         'non-empty layers; distinct by hash(base).')
 ASSUMPTIONS = ['worlds are enumerated: <= 6 atoms', 'reference partition M1 is unique, so it is an exact oracle']
 TRUSTED = []
-FLOOR = {'quick': 300, 'thorough': 3000}
+FLOOR = {'quick': 150, 'thorough': 1500}
 BUDGET = {'quick': 90, 'thorough': 900}
 N = {'quick': 2000, 'thorough': 30000}
-REQUIRED = {'quick': {'refusals_checked': 200, 'diagnostics_checked': 1000},
+REQUIRED = {'quick': {'refusals_checked': 100, 'diagnostics_checked': 400},
             'thorough': {'refusals_checked': 2000, 'diagnostics_checked': 10000}}
 
 
